@@ -90,7 +90,9 @@ func allFilters(mo *m.Model) []string {
 func genCase(t *rapid.T) Case {
 	o := worldOpts()
 	var w gen.World
-	switch rapid.IntRange(0, 3).Draw(t, "family") {
+	switch rapid.IntRange(0, 4).Draw(t, "family") {
+	case 4:
+		w = setAlgebraWorld(t, o) // nested set operations over wildcard-bearing leaves
 	case 0:
 		w = gen.AnyWorld(t, o) // the shared generator G (generic worlds and the fast-path families)
 	case 1:
@@ -209,6 +211,8 @@ func reach(mo *m.Model, typ, rel string) map[rk]bool {
 type shape struct {
 	nonDirect, hasDiff, hasInter bool
 	nestedDiff                   bool            // an exclusion other than the root operator of the queried relation's own rewrite is reachable
+	diffUnderDiff                bool            // some reachable exclusion has another exclusion inside its base or subtract operand
+	diffBehindEdge               bool            // an exclusion sits in a relation that is reached through a userset restriction or a tuple-to-userset
 	wildcardTuple                map[string]bool // user type -> a reachable wildcard tuple of that type exists
 	cyclic                       bool
 	cycleUnderSubtract           bool // a tuple cycle is reachable from the subtract branch of a reachable exclusion
@@ -234,6 +238,55 @@ func queryShape(mo *m.Model, ts []m.Tuple, q Query) shape {
 					sh.hasInter = true
 				}
 			})
+		}
+	}
+	// how the reachable exclusions are consumed (the recorded findings live on two of these shapes)
+	var containsDiff func(typ string, rw *m.Rewrite, seen map[rk]bool) bool
+	containsDiff = func(typ string, rw *m.Rewrite, seen map[rk]bool) bool {
+		found := false
+		rw.Walk(func(n *m.Rewrite) {
+			switch n.Kind {
+			case m.Difference:
+				found = true
+			case m.Computed:
+				k := rk{typ, n.Rel}
+				if r := mo.Relation(typ, n.Rel); r != nil && !seen[k] {
+					seen[k] = true
+					if containsDiff(typ, r.Rewrite, seen) {
+						found = true
+					}
+				}
+			}
+		})
+		return found
+	}
+	for k := range rs {
+		r := mo.Relation(k.typ, k.rel)
+		if r == nil {
+			continue
+		}
+		r.Rewrite.Walk(func(n *m.Rewrite) {
+			if n.Kind == m.Difference {
+				for _, ch := range n.Children {
+					if containsDiff(k.typ, ch, map[rk]bool{}) {
+						sh.diffUnderDiff = true
+					}
+				}
+			}
+			if n.Kind == m.TTU {
+				for _, re := range mo.Relation(k.typ, n.Tupleset).Restr {
+					if tr := mo.Relation(re.Type, n.Rel); tr != nil && containsDiff(re.Type, tr.Rewrite, map[rk]bool{}) {
+						sh.diffBehindEdge = true
+					}
+				}
+			}
+		})
+		for _, re := range r.Restr {
+			if re.Rel != "" {
+				if tr := mo.Relation(re.Type, re.Rel); tr != nil && containsDiff(re.Type, tr.Rewrite, map[rk]bool{}) {
+					sh.diffBehindEdge = true
+				}
+			}
 		}
 	}
 	byNode := map[string][]m.Tuple{}
@@ -613,11 +666,17 @@ func missingSignature(u string, sh shape) string {
 // bookkeeping of ListUsers treats specially: an exclusion whose result feeds
 // another operator, userset or TTU ("nested": its negative markers travel
 // upwards), a top-level exclusion whose subtract branch runs into a tuple
-// cycle, any other top-level exclusion, an intersection, cyclic data.
+// cycle, any other top-level exclusion, an intersection, cyclic data. "nested" is
+// reserved for the two shapes the recorded findings live on: an exclusion inside
+// the base or subtract operand of another exclusion, and an exclusion in a
+// relation reached through a userset restriction or a tuple-to-userset; an
+// exclusion that only feeds an intersection or union gets its own suffix.
 func opsSuffix(sh shape) string {
 	switch {
-	case sh.nestedDiff:
+	case sh.nestedDiff && (sh.diffUnderDiff || sh.diffBehindEdge):
 		return "/nested-exclusion"
+	case sh.nestedDiff:
+		return "/exclusion-under-intersection-or-union"
 	case sh.cycleUnderSubtract:
 		return "/exclusion-with-cycle-under-subtract"
 	case sh.hasDiff:
